@@ -481,6 +481,17 @@ def run_c13(tier, seed, wd, info, verdict):
         sid = "C13-control-%d-%d" % (n, t)
         scs.append(dict(id=sid, ids=list(range(1, n + 1)), n=n, t=t, initiator=1, account="DW/ctl%d" % k, generate=True, probe=True))
         meta[sid] = scs[-1]
+    # IDENTIFIERS THAT AGREE IN THEIR LOW BITS (1 and 1025, 1 and 257, 3 and 65539): the genuine share a participant computed for
+    # one of them, handed to the other (share-swapped) - at every message of the swap where such a share is known by then
+    for ids_ in ([1, 2, 1025], [1, 257, 2], [3, 5, 65539]):      # (below 2^31: the trace specification reads identifiers as TLC integers)
+        for init_ in (ids_[0], ids_[2]):
+            for site_, frm_, to_ in (("contribute.req", ids_[1] if ids_[1] < ids_[2] else ids_[0], ids_[2]), ("contribute.rep", ids_[2], ids_[1] if ids_[1] < ids_[2] else ids_[0]),
+                                     ("contribute.req", min(ids_), sorted(ids_)[1]), ("contribute.rep", sorted(ids_)[1], min(ids_))):
+                k += 1
+                sid = "C13-%d" % k
+                sc = dict(id=sid, ids=ids_, n=3, t=2, initiator=init_, account="DW/f%d" % k, generate=True, probe=False, faults=[dict(site=site_, to=to_, kind="share-swapped", **{"from": frm_})])
+                scs.append(sc)
+                meta[sid] = sc
     if tier != "quick":
         rnd = random.Random(seed)
         base = [s for s in scs if s.get("faults")]
@@ -529,7 +540,7 @@ def run_c13(tier, seed, wd, info, verdict):
     if unreproduced:
         raise Inconclusive("generation(s) %s got no answer once, but did when run again" % unreproduced)
     lines, index = [], []
-    mustfail = MUSTFAIL_MSG | {"share-replaced", "share-otherid", "vvec-alter", "vvec-short", "vvec-empty", "vvec-double", "vvec-long-key", "vvec-long-identity", "vvec-long-poly", "vvec-short-poly"}
+    mustfail = MUSTFAIL_MSG | {"share-replaced", "share-swapped", "share-otherid", "vvec-alter", "vvec-short", "vvec-empty", "vvec-double", "vvec-long-key", "vvec-long-identity", "vvec-long-poly", "vvec-short-poly"}
     reached, distinct = 0, set()
     for sc in scs:
         evs = by.get(sc["id"])
@@ -1215,7 +1226,7 @@ def replay(prop, path):
             project_calls(sc["id"], sc, evs, lines, {"signer-1", "signer-2", "signer-3"})
             inv = ["Lifecycle", "PeersOnly"]
         else:
-            project_gen(sc["id"], sc, evs, lines, MUSTFAIL_MSG | {"share-replaced", "share-otherid", "vvec-alter", "vvec-short", "vvec-empty", "vvec-double", "vvec-long-key", "vvec-long-identity", "vvec-long-poly", "vvec-short-poly"})
+            project_gen(sc["id"], sc, evs, lines, MUSTFAIL_MSG | {"share-replaced", "share-swapped", "share-otherid", "vvec-alter", "vvec-short", "vvec-empty", "vvec-double", "vvec-long-key", "vvec-long-identity", "vvec-long-poly", "vvec-short-poly"})
             inv = ["Agreement", "ThresholdRule", "FaultNoAccount", "PeersOnly", "NoCrash"]
         for ln in lines:
             print(json.dumps(ln)[:400])
